@@ -1,7 +1,26 @@
-//! op "conv" (stub: answers bad-op until the engine is built)
+//! op "conv" (C20): the independent JSON reader.  `{"op":"conv","f":"json_parse","text":…}` parses the text the
+//! interpreter's `serialize` produced with serde_json and returns the document itself (`{"ok": <value>}`) or
+//! `{"err": msg}`; the check compares it structurally with the document it generated.
+//! `{"f":"json_str","s":…}` returns serde_json's own serialisation of a string (reference for `escapeStr`).
 
 use serde_json::{json, Value};
 
-pub fn op(_req: &Value) -> Value {
-    json!({"bad-op": true})
+pub fn op(req: &Value) -> Value {
+    match req["f"].as_str().unwrap_or("") {
+        "json_parse" => {
+            let text = req["text"].as_str().unwrap_or("");
+            match serde_json::from_str::<Value>(text) {
+                Ok(v) => json!({ "ok": v }),
+                Err(e) => json!({ "err": e.to_string() }),
+            }
+        }
+        "json_str" => {
+            let s = req["s"].as_str().unwrap_or("");
+            match serde_json::to_string(&Value::String(s.to_string())) {
+                Ok(t) => json!({ "ok": t }),
+                Err(e) => json!({ "err": e.to_string() }),
+            }
+        }
+        _ => json!({"bad-op": true}),
+    }
 }
